@@ -8,7 +8,6 @@ package c14
 import (
 	"fmt"
 	"math/rand"
-	"os"
 	"strings"
 	"sync"
 	"testing"
@@ -576,5 +575,5 @@ func TestCheck(t *testing.T) {
 		}
 	}
 	r.Count("goroutines_left_after_everything_closed", int64(len(left)))
-	os.Exit(r.Finish(100))
+	h.Exit(r.Finish(100))
 }
